@@ -131,11 +131,14 @@ def run_tlc(module, cfg=None, workers=None, env=None, simulate=None, depth=None,
     if meta.exists():
         shutil.rmtree(meta)
     meta.mkdir(parents=True)
+    # memory: several checks may run side by side (each starts JVMs of its own); the quick tier's models are small
+    if os.environ.get("VERIF_TIER", "quick") == "quick" and xmx.endswith("g") and int(xmx[:-1]) > 6:
+        xmx = "6g"
     java = ["java", "-XX:+UseParallelGC", f"-Xmx{xmx}", "-Xss64m"]
     if deque:
         java.append("-Dtlc2.tool.queue.IStateQueue=StateDeque")
     java += ["-cp", TLA_CP, "tlc2.TLC"]
-    args = ["-metadir", str(meta), "-noGenerateSpecTE", "-workers", str(workers or "auto")]
+    args = ["-metadir", str(meta), "-noGenerateSpecTE", "-workers", str(workers or "auto"), "-fpmem", "0.1"]
     if cfg:
         args += ["-config", str(cfg)]
     if not deadlock:
@@ -160,6 +163,13 @@ def run_tlc(module, cfg=None, workers=None, env=None, simulate=None, depth=None,
     try:
         p = subprocess.run(java + args, cwd=str(spec_dir), env=e, capture_output=True, text=True,
                            timeout=timeout)
+        if p.returncode in (137, -9) and "Error:" not in p.stdout:
+            # killed from outside (the kernel's out-of-memory killer when the machine is shared): once more, later
+            time.sleep(30)
+            shutil.rmtree(meta, ignore_errors=True)
+            meta.mkdir(parents=True)
+            p = subprocess.run(java + args, cwd=str(spec_dir), env=e, capture_output=True, text=True,
+                               timeout=timeout)
     except subprocess.TimeoutExpired as ex:
         shutil.rmtree(meta, ignore_errors=True)
         raise ToolFailure(f"TLC timed out after {timeout}s on {module} {cfg}: "
